@@ -26,6 +26,9 @@ CLAIMED = {
     "C11": ("Lean 4 theorems about DispatchAggregate and the aggregator loop of Table.Dispatch + regenerated facts + differential validation with feedback of aggregator output through Table.In",
             "proof: Crng.Props.C11.aggregate_only_routes, aggregate_routes_exact, no_amplification, dropraw_exact (complete six-condition filter, via C03.agg_filter_complete), consumed_withheld, others_unaffected. Regenerated obligations (Crng.Tie.C11): Table.In feeds DispatchAggregate only; DispatchAggregate is the route loop; AddMaybe confirms the match before the hand-off and reports drop-raw after it; Dispatch returns on drop-raw. Correspondence (spec-exact): tables with drop-raw, self-matching and chained aggregations plus blacklist entries and rewriters aimed at the aggregate names; each aggregator emission is fed back through Table.In and its routing compared.",
             "trusted: Lean kernel; harness+driver plumbing; aggregator timing (flush ticks) is injected; numeric aggregation itself is C10.", "§5 C11"),
+    "C12": ("Lean 4 theorem: for every stream and every segmentation the incremental scanner model yields the lines of the concatenation (induction over the chunk list); ReadLine model for AMQP; + regenerated handler skeletons + differential validation behind a chunking reader and through the real listener",
+            "proof: Crng.Props.C12.chunk_invariance (all streams x all segmentations incl. empty reads and data+EOF/error), limit_exact (max-1 whole, max errors; 65536 for TCP/UDP), amqp_whole_lines (ReadLine with a 4096-byte buffer = newline-delimited lines when lines fit). Regenerated obligations (Crng.Tie.C12): Plain.Handle = default bufio.Scanner + Dispatch(scanner.Bytes()) per Scan + scanner.Err(); one reader per UDP datagram; AMQP NewReaderSize(4096)+ReadLine loop; TimeoutConn.Read delegates once; one handler call per TCP connection. Correspondence (spec-exact): real Plain.Handle / AMQP consume loop behind a chunking reader: every cut position and pair of cuts for short streams, random cuts, one-byte and empty reads, data+EOF, deadline expiring mid-line, lines at 65535/65536 and 4095/4096 bytes; python monitor splits the stream independently. Real input.Listener over loopback UDP/TCP with a slow dispatcher (datagrams arriving while earlier ones are handled).",
+            "trusted: Lean kernel; harness+driver plumbing; bufio.Scanner and bufio.Reader.ReadLine are modelled and validated here; a read error ends the connection, what was delivered before it is the stream; observation (not a violation): the AMQP path keeps the CR of a final unterminated line, which the dispatcher's field splitting ignores.", "§5 C12"),
     "C15": ("Lean 4 theorems: the Go ring lookup (sorted by Less, sort.Search modulo length) equals Carbon's rule on the set of entries, for any position function; order independence; minimal movement; + regenerated constants/shape facts + three-way differential validation (real route, Lean model with Lean MD5, python transcription of Carbon)",
             "proof: Crng.Props.C15.lookup_eq_carbon, owner_unique, order_independent, one_destination, add_minimal, remove_minimal, addr_split (kernel-checked for every node list, replica count and position function). Regenerated obligations (Crng.Tie.C15): 100 replicas; replica key pieces; first two MD5 bytes big-endian; Less; Search predicate >= and modulo; hasher rebuilt by constructor/Add/DelDestination; key = text before the first space. Correspondence (spec-exact): the real ConsistentHashing route on node sets with/without ports and instances (1..30 nodes, so that different nodes share ring positions), permutations of the listing order, add/remove histories; Lean MD5 vs crypto/md5. Monitor: carbon 0.9.x ConsistentHashRing transcribed in python, plus minimal-movement checks.",
             "trusted: Lean kernel; harness+driver plumbing; Carbon's algorithm as transcribed (0.9.x: insort of (position, (server, instance)), bisect_left, None sorts before strings); sort.Sort returns a Less-sorted permutation.", "§5 C15"),
